@@ -728,7 +728,7 @@ func matchFinding(fs []finding, prop string, r result) *finding {
 }
 
 func writeReplay(prop, tier string, seed uint64, idx int, r result) string {
-	dir := filepath.Join(verifDir, "evidence", "replays")
+	dir := filepath.Join(evidenceDir(), "replays")
 	os.MkdirAll(dir, 0o755)
 	name := fmt.Sprintf("%s-%s-seed%d-case%d.json", prop, tier, seed, idx)
 	if idx < 0 {
@@ -839,8 +839,16 @@ func aggregate(prop, tier string, seed uint64, m meta, results map[int]caseOut, 
 	}
 }
 
+func evidenceDir() string {
+	// sensitivity runs (tools/mut.py, seeded patches on a worktree) must not overwrite the evidence of the real tree
+	if d := os.Getenv("VERIF_EVIDENCE_DIR"); d != "" {
+		return d
+	}
+	return filepath.Join(verifDir, "evidence")
+}
+
 func writeEvidence(prop string, ev map[string]any) {
-	dir := filepath.Join(verifDir, "evidence")
+	dir := evidenceDir()
 	os.MkdirAll(dir, 0o755)
 	b, _ := json.MarshalIndent(ev, "", " ")
 	os.WriteFile(filepath.Join(dir, prop+".json"), b, 0o644)
